@@ -597,6 +597,11 @@ def check(mod, ctx, args):
     lines = []
     for kid, kf in known_hits.items():
         lines.append("KNOWN-FINDING: property=%s %s" % (mod.ID, kf["text"]))
+    if not args.only:
+        # every listed finding is announced, also one that this run's sample happened not to reach
+        for e in load_known(mod.ID):
+            if e["id"] not in known_hits:
+                lines.append("KNOWN-FINDING: property=%s %s [listed in known_findings.json; not reached by the histories of this run]" % (mod.ID, e["text"]))
 
     if agg["skipped_budget"]:
         print("NOTE: the wall-clock budget (%ds) ended the batch early: %d of %d planned runs were not started (slow or shared machine); what ran is reported below and in the evidence file" % (ctx.budget_s, agg["skipped_budget"], len(keys)))
